@@ -342,9 +342,13 @@ func (ex *Exec) autoInline(fn *ssa.Function) bool {
 				return false // a loop needs an invariant
 			}
 		}
-		n += len(b.Instrs)
+		for _, in := range b.Instrs {
+			if _, dbg := in.(*ssa.DebugRef); !dbg {
+				n++
+			}
+		}
 	}
-	return n <= 60
+	return n <= 250
 }
 
 // caseOf picks the contract case for the dynamic type of the first `any` argument.
